@@ -435,6 +435,13 @@ def run_bus_api(shard: dict, res: Res) -> None:
             do_map({"identifier": 400, "bank_range": (lo, hi), "addr_range": (0x8000, 0xFFFF) if size == 0x8000 else (0, 0xFFFF), "mask": size,
                     **({"writable": 1} if rng.random() < 0.5 else {})})
             res.count("bus_api_takeovers")
+            if rng.random() < 0.4:
+                # ... and the older mapping is removed afterwards: the banks the newer one took over stay with the newer one
+                touch(set(range(lo, hi + 1)))
+                bus.unmap(str(old["identifier"]))
+                live.remove(old)
+                hist.append(["unmap", old["identifier"]])
+                res.count("bus_api_unmap_after_takeover")
         for k in range(rng.randint(0, 2)):
             for _try in range(20):
                 if gone and rng.random() < 0.6:
